@@ -23,6 +23,9 @@ def cases(draw, nums, pmax=5, kmax=4):
     U, p = draw(gen.knotvectors(0, pmax, kmax))
     n = len(U) - p - 1
     w = draw(gen.pos_weights(n)) if draw(st.integers(0, 4)) < 2 else None
+    # weights are homogeneous: W(u*) exactly 1 at one evaluated parameter; a common factor down to 1e-12 / up to 1e9
+    w = draw(gen.unit_weight_function(U, w, 2))
+    w = draw(gen.weight_magnitude({"w": w}, wide=True))["w"]
     num = draw(st.sampled_from(list(nums)))
     pairs = draw(st.lists(st.tuples(st.integers(-n, n - 1), st.integers(0, p)),
                           min_size=1, max_size=4))
